@@ -161,6 +161,8 @@ pub fn observe(t: &mut Toks) -> String {
     }
 }
 
+pub fn bytes_request(cmd: &str, b: &[u8]) -> String { format!("{} {}", cmd, bytes_tokens(b)) }
+
 fn bytes_tokens(b: &[u8]) -> String {
     let mut s = b.len().to_string();
     for x in b { s.push_str(&format!(" {}", x)); }
